@@ -95,6 +95,11 @@ func randStems(r *rng) []funit.Int16 {
 	var s []funit.Int16
 	for k := r.intn(3); k > 0; k-- {
 		a := r.rangeInt(-1000, 1000)
+		if r.chance(1, 10) {
+			// stems spanning more than 32767 units: the width operand does not fit 16 bits
+			s = append(s, funit.Int16(pick(r, []int{-32768, -30000, -20000})), funit.Int16(pick(r, []int{20000, 30000, 32767})))
+			continue
+		}
 		s = append(s, funit.Int16(a), funit.Int16(a+r.rangeInt(-100, 900)))
 	}
 	return s
